@@ -118,6 +118,14 @@ class PathTable:
                     g = self.prog.funcs.get(f"{self.scope.qualname}.<locals>.{call.func.id}")
                     if g is not None:
                         return self._inline(g, call, TT, depth)
+            if self.prog is not None and isinstance(call.func, ast.Attribute) and isinstance(call.func.value, ast.Name) and depth < self.inline_depth \
+                    and call.func.attr not in self.opaque and call.func.value.id not in TT.env and self.module is not None:
+                # Class.static_helper(...): a static method of a class of the package, named through its class
+                r = self.prog.resolve_name(self.module, call.func.value.id)
+                if r and r[0] == "class":
+                    g = r[1].find_method(call.func.attr)
+                    if g is not None and "staticmethod" in g.decorators:
+                        return self._inline(g, call, TT, depth)
             return None
         T.call_hook = hook
         return T
@@ -125,10 +133,11 @@ class PathTable:
     def _inline(self, g: Func, call: ast.Call, T: Translator, depth: int) -> Optional[sp.Expr]:
         if any(isinstance(n, (ast.For, ast.While, ast.Try, ast.With)) for n in ast.walk(g.node)):
             return None
-        bound = bind_call(call, g.params)
+        allp = list(g.params) + [k for k in getattr(g, "kwonly", []) if k not in g.params]
+        bound = bind_call(call, allp)
         closure = getattr(g, "kind", "") == "nested"
         env = dict(T.env) if closure else {}       # a closure sees the enclosing function's bindings
-        for p in g.params:
+        for p in allp:
             if p in bound:
                 env[p] = T.tr(bound[p])
             elif p in g.defaults():
@@ -428,13 +437,28 @@ def _is_table(e: ast.AST) -> bool:
         tup_key = isinstance(k, ast.Tuple) and k.elts and all(isinstance(x, ast.Constant) and isinstance(x.value, str) for x in k.elts)
         if not (str_key or tup_key):
             return False
-        if not (isinstance(v, (ast.Constant, ast.Lambda, ast.Name, ast.Attribute)) or _is_literal(v)):
+        if not (isinstance(v, (ast.Constant, ast.Lambda, ast.Name, ast.Attribute)) or _is_literal(v) or (isinstance(v, ast.Dict) and _is_table(v))):
             return False
     return True
 
 
 NP_UNARY = {"log": sp.log, "exp": sp.exp, "sqrt": sp.sqrt, "abs": sp.Abs, "absolute": sp.Abs}
 KEYERROR = sp.Symbol("<KeyError>")
+
+
+def tidy_items(v):
+    """Selections from known displays are the selected element: getitem((a, b), 0) -> a (also after a conditional value has been
+    resolved), list/tuple of a display -> the display."""
+    fn = lambda x: getattr(getattr(x, "func", None), "__name__", "")     # noqa: E731
+    v = sp.sympify(v)
+    for _ in range(6):
+        v2 = v.replace(lambda x: fn(x) in ("getitem", "item") and isinstance(x.args[0], sp.Tuple) and getattr(x.args[1], "is_Integer", False)
+                       and -len(x.args[0]) <= int(x.args[1]) < len(x.args[0]), lambda x: x.args[0][int(x.args[1])])
+        v2 = v2.replace(lambda x: fn(x) in ("tuple", "list") and len(x.args) == 1 and isinstance(x.args[0], sp.Tuple), lambda x: x.args[0])
+        if v2 == v:
+            break
+        v = v2
+    return v
 
 
 def rewrite(e, pred, repl):
@@ -488,6 +512,9 @@ def specialise(e, world):
                         return a.args[0]
                 if all(fn(a).startswith("kv") for a in x.args[0].args):
                     return x.args[2] if len(x.args) > 2 else sp.Symbol("None")
+            if fn(x) in ("lower", "upper", "strip") and len(x.args) == 1 and getattr(x.args[0], "is_Symbol", False) and x.args[0].name.startswith("'") and x.args[0].name.endswith("'"):
+                txt = x.args[0].name[1:-1]
+                return sp.Symbol("'" + getattr(txt, fn(x))() + "'")           # a string method on a literal name
             if fn(x) == "call" and fn(x.args[0]) == "lambda_" and len(x.args[0].args[0]) == len(x.args) - 1:
                 params, body = x.args[0].args
                 return body.xreplace(dict(zip(params, x.args[1:])))
@@ -499,7 +526,7 @@ def specialise(e, world):
                 if r is not None:
                     return r
             return x
-        e = e.replace(lambda x: fn(x) in ("getitem", "get", "call") or isinstance(x, sp.Piecewise), step)
+        e = e.replace(lambda x: fn(x) in ("getitem", "get", "call", "lower", "upper", "strip") or isinstance(x, sp.Piecewise), step)
         if e == before:
             break
     return e
